@@ -7,12 +7,14 @@ package main
 import (
 	"errors"
 	"fmt"
+	"io"
 	"sort"
 	"strconv"
 	"strings"
 	"sync"
 	"time"
 
+	liberrors "github.com/aptpod/iscp-go/errors"
 	"github.com/aptpod/iscp-go/transport"
 	"github.com/aptpod/iscp-go/transport/reconnect"
 	"verif.local/harness/lp"
@@ -25,6 +27,7 @@ type utr struct {
 	failW  bool
 	in     chan []byte
 	failR  chan struct{}
+	failRErr error // what the failing Read returns (default: a plain error)
 	done   chan struct{}
 	once   sync.Once
 	onceR  sync.Once
@@ -77,6 +80,12 @@ func (u *utr) Read() ([]byte, error) {
 		case b := <-u.in:
 			return b, nil
 		default:
+		}
+		u.mu.Lock()
+		e := u.failRErr
+		u.mu.Unlock()
+		if e != nil {
+			return nil, e
 		}
 		return nil, errors.New("scripted read failure")
 	case <-u.done:
@@ -317,6 +326,18 @@ func (i *impl) exec(op string) string {
 		return "ok"
 	case "failr":
 		u := i.cur()
+		if len(w) > 1 {
+			// every way a connection can break other than the peer's normal close is followed by a redial
+			u.mu.Lock()
+			u.failRErr = map[string]error{
+				"closed":    transport.ErrAlreadyClosed,
+				"goingaway": fmt.Errorf("read: %w", liberrors.ErrConnectionGoingAwayClose),
+				"abnormal":  fmt.Errorf("read: %w", liberrors.ErrConnectionAbnormalClose),
+				"internal":  fmt.Errorf("read: %w", liberrors.ErrConnectionInternalErrorClose),
+				"eof":       io.ErrUnexpectedEOF,
+			}[w[1]]
+			u.mu.Unlock()
+		}
 		i.mu.Lock()
 		nd := len(i.dials)
 		i.mu.Unlock()
@@ -509,7 +530,7 @@ func main() {
 				do("failw")
 				sig += "f"
 			case k == 6:
-				out := do("failr")
+				out := do([]string{"failr", "failr closed", "failr goingaway", "failr abnormal", "failr internal", "failr eof"}[rng.Intn(6)])
 				if out == "dead" {
 					alive = false
 					pendingReads = 0
